@@ -14,7 +14,7 @@ import pickle
 
 from . import common
 
-SORT_KEYS = ["prio", "id"]          # key index 1 -> "prio", 2 -> "id"
+SORT_KEYS = ["prio", "id", "mix"]   # key index 1 -> "prio", 2 -> "id", 3 -> "mix" (prio, None where prio is 0)
 
 
 def default_prio(n):
@@ -30,7 +30,7 @@ class Universe:
         self.w = nw
         prio = prio or default_prio(self.n)
         self.prio = list(prio)
-        self.tasks = [pj.Task(ids[i], name="t%d" % (i + 1), prio=prio[i]) for i in range(self.n)]
+        self.tasks = [pj.Task(ids[i], name="t%d" % (i + 1), prio=prio[i], mix=prio[i] or None) for i in range(self.n)]
         self.wbs = [pj.WBS() for _ in range(nw)]
         # long-lived list handles grabbed before any mutation; calls with via=1 go through them
         self.handles = [t.children for t in self.tasks] + [w.roots for w in self.wbs]
@@ -149,6 +149,7 @@ def project(U: Universe, attrs=True, obs=True):
     if obs:
         tasks = []
         lookup = []
+        strlookup = []
         allids = sorted(set(U.ids)) + [max(U.ids) + 7]
         for w in U.wbs:
             tasks.append(_safe(lambda: [tix(c) for c in w.tasks], [UNK]))
@@ -161,7 +162,17 @@ def project(U: Universe, attrs=True, obs=True):
                 except Exception:
                     row.append(-1)
             lookup.append(row)
-        g["obs"] = {"tasks": tasks, "lookup": lookup, "ids": allids}
+            # keys that are no member's id (the ids as text): lookup is exact, there is nothing to find
+            srow = []
+            for i in allids:
+                try:
+                    srow.append(tix(w[str(i)]))
+                except RuntimeError as e:
+                    srow.append(-2 if isinstance(e, RecursionError) else 0)
+                except Exception:
+                    srow.append(-1)
+            strlookup.append(srow)
+        g["obs"] = {"tasks": tasks, "lookup": lookup, "ids": allids, "strlookup": strlookup}
     return g
 
 
@@ -225,7 +236,7 @@ def _dispatch(U, name, a):
         if a["key"] & 4:
             kw["predecessors"] = [T(x) for x in a["seq3"]]
         try:
-            U.tasks[t - 1] = pj.Task(old.id, name=old.name, prio=old.prio, **kw)
+            U.tasks[t - 1] = pj.Task(old.id, name=old.name, prio=old.prio, mix=old.mix, **kw)
         except BaseException:
             # a half-built object may have stayed attached to universe tasks: it IS task t now
             z = _find_stranger(U)
@@ -243,7 +254,14 @@ def _dispatch(U, name, a):
         T(t).parent = None if n == 0 else T(n)
         return None
     if name == "SetChildren":
-        U.set_childlist(n, [T(x) for x in seq])
+        # via=2: the value is a one-shot iterable (generator), which the API accepts like a list
+        U.set_childlist(n, (T(x) for x in seq) if via == 2 else [T(x) for x in seq])
+        return None
+    if name == "BulkParent":           # <task list>.parent = p: the list facade assigns to every listed task
+        U.childlist(n, via).parent = None if t == 0 else T(t)
+        return None
+    if name == "BulkPreds":
+        U.childlist(n, via).predecessors = [T(x) for x in seq]
         return None
     if name == "SetChildrenOne":       # bare task instead of a list
         U.set_childlist(n, T(t))
@@ -281,10 +299,10 @@ def _dispatch(U, name, a):
         U.childlist(n, via).reorder(list(seq))      # seq holds ids here
         return None
     if name == "SetPreds":
-        T(t).predecessors = [T(x) for x in seq]
+        T(t).predecessors = (T(x) for x in seq) if via == 2 else [T(x) for x in seq]
         return None
     if name == "SetSuccs":
-        T(t).successors = [T(x) for x in seq]
+        T(t).successors = (T(x) for x in seq) if via == 2 else [T(x) for x in seq]
         return None
     if name == "PredAppend":
         (U.phandles[t - 1] if via else T(t).predecessors).append(T(n))
@@ -342,7 +360,7 @@ def _b(x):
 
 
 LIST_FACADE = {"ChMove", "ChSort", "ChReorder", "ChRemove", "ListLShift", "ListRShift", "SetPredsFrom",
-               "SetSuccsFrom"}
+               "SetSuccsFrom", "BulkParent", "BulkPreds"}
 
 
 def isolated(pre, t):
@@ -402,7 +420,7 @@ def alphabet(N, W, L=2, ids=None, level=2, light=False):
             for t in tasks:
                 A.append(act("ChMove", n=n, seq=[t]))
                 A.append(act("ChMove", n=n, seq=[t], before=t % N + 1, after=t))
-            for key in (1,) if light else (1, 2):
+            for key in (1, 3) if light else (1, 2, 3):
                 for rev in (0, 1):
                     A.append(act("ChSort", n=n, key=key, rev=rev))
             idset = sorted(set(ids or [])) + [99]
@@ -429,6 +447,17 @@ def alphabet(N, W, L=2, ids=None, level=2, light=False):
                 A.append(act("ListRShift", n=n, seq=s))
             for t in tasks:
                 A.append(act("SetChildrenOne", n=n, t=t))
+            for s in seqs(N, 2, 2):             # one-shot iterables as values
+                A.append(act("SetChildren", n=n, seq=s, via=2))
+            # bulk assignment of a relation through the list facade
+            for p in [0] + list(tasks):
+                A.append(act("BulkParent", n=n, t=p))
+            for s in seqs(N, 1, 0):
+                A.append(act("BulkPreds", n=n, seq=s))
+        for t in tasks:
+            for s in seqs(N, 2, 2):
+                A.append(act("SetPreds", t=t, seq=s, via=2))
+                A.append(act("SetSuccs", t=t, seq=s, via=2))
         # constructor forms: Task(id, parent=p), Task(id, children=[..]), ... and combinations of two arguments
         for t in tasks:
             others = [x for x in tasks if x != t]
